@@ -78,8 +78,24 @@ func DoubleQuotesToBackTick(str string) (string, error) {
 						buffer.WriteString("``")
 						continue
 					}
-					// a backslash is a character of the name like any other:
-					// a quote of the name is written doubled, not escaped
+					// a backslash escapes the character behind it, as the
+					// sanitizer and the parser read a double-quoted text: \\ is
+					// a backslash of the name, \" a quote of the name
+					if r == '\\' {
+						if i+1 == len(str) {
+							return "", fmt.Errorf("index out of range")
+						}
+						switch next := str[i+1]; next {
+						case '\\', '"':
+							buffer.WriteByte(next)
+							i++
+							continue
+						case '`':
+							buffer.WriteString("``")
+							i++
+							continue
+						}
+					}
 					buffer.WriteByte(byte(r))
 				}
 				i--
